@@ -84,15 +84,24 @@ def run_load_cell(cell, path_or_text, fmt_real, fails):
         where += f" key={key!r}"
     if is_file:
         p = path_or_text
+        stem = cell.get("stem")
+        if stem:
+            # file names with several dots / spaces / upper case in the stem: only the last suffix names the format
+            q = os.path.join(_tmp(), stem + "." + (fmt if cell["fmtarg"] == "suffix" else fmt_real))
+            shutil.copyfile(p, q)
+            p = q
+            where += f" file={os.path.basename(q)!r}"
         if cell["fmtarg"] == "suffix":
             # the suffix decides: give the file the suffix of the requested format
-            if fmt != fmt_real:
+            if fmt != fmt_real and not stem:
                 q = os.path.join(_tmp(), "input." + fmt)
                 shutil.copyfile(p, q)
                 p = q
             args = (str(p) if cell["src"] == "str" else Path(p),)
         else:
             args = (str(p) if cell["src"] == "str" else Path(p), fmt)
+        if cell.get("key") and fmt_real == "cdxml" and fn == "load":
+            path_or_text = p
     else:
         args = (path_or_text, fmt)
     try:
@@ -217,16 +226,25 @@ def run_dump_cell(cell, obj, fails):
         where += f" options={kw}"
     if supported and exp_exc is not None:
         # the class method does not know the option: the entry point must refuse it the same way, not drop it
+        d_ = _tmp()
+        p_ = os.path.join(d_, "held." + fmt)
+        with open(p_, "w") as f_:
+            f_.write("# previous content\n")
         try:
             if fn == "dumps":
                 ml.dumps(obj, fmt, **kw)
-            else:
+            elif target == "stream":
                 ml.dump(obj, io.StringIO(), fmt, **kw)
+            else:
+                ml.dump(obj, p_ if target == "str" else Path(p_), fmt, **kw)
             fails.append(Fail(f"writer-option-silently-dropped:{fn}", f"{where}: class method raises {exp_exc!r}, entry point accepted it"))
         except TypeError:
-            pass
+            if fn == "dump" and target != "stream" and (not os.path.exists(p_) or open(p_).read() != "# previous content\n"):
+                fails.append(Fail("refused-dump-damaged-the-existing-file:mode-a", f"{where}: a dump that raised TypeError left the file {'missing' if not os.path.exists(p_) else 'changed'}"))
         except Exception as e:
             fails.append(Fail(f"raises:{fn}:{exc_sig(e) or type(e).__name__}", f"{where}: {e!r}"))
+        finally:
+            shutil.rmtree(d_, ignore_errors=True)
         return "codec"
     if fn == "dumps":
         try:
@@ -283,6 +301,10 @@ def run_dump_cell(cell, obj, fails):
         if not supported:
             if not isinstance(raised, ValueError):
                 fails.append(Fail("unsupported-format-not-ValueError:dump-to-path", f"{where}: {raised!r}"))
+            # a refused dump writes nothing: what the file held before is still there (mode "a") / the refusal must not cost the file
+            left = open(p).read() if os.path.exists(p) else None
+            if left is None or (mode == "a" and left != prior) or (mode == "w" and left not in (prior, "")):
+                fails.append(Fail(f"refused-dump-damaged-the-existing-file:mode-{mode}", f"{where}: file now {'missing' if left is None else repr(left[:40])}, held {prior!r}"))
             return "rejected"
         if raised is not None:
             fails.append(Fail(f"raises:dump-to-path:{exc_sig(raised) or type(raised).__name__}", f"{where}: {raised!r}"))
@@ -309,6 +331,8 @@ def load_cells():
                     for ot in OTYPES:
                         for name in (None, "given_name"):
                             yield {"fn": fn, "fmt": fmt, "src": src, "fmtarg": fmtarg, "otype": ot, "name": name}
+                            if name is None:
+                                yield {"fn": fn, "fmt": fmt, "src": src, "fmtarg": fmtarg, "otype": ot, "name": name, "stem": "mol.conf.1 v2.XYZ.mol2.final"}
                             if fn == "load" and fmt == "cdxml":
                                 for key in ("first", "last", "missing"):
                                     yield {"fn": fn, "fmt": fmt, "src": src, "fmtarg": fmtarg, "otype": ot, "name": name, "key": key}
